@@ -571,6 +571,7 @@ func runC14(c *Ctx) {
 		}
 	}
 	c14IndexGate(c, c.W)
+	c14DecodeForms(c, c.W)
 }
 
 func c14E7(c *Ctx, w *World) {
@@ -1414,5 +1415,143 @@ func c14IndexGate(c *Ctx, w *World) {
 	}
 	if n == 0 {
 		c.Undecided(fname(fn)+"#element-access", fn.Pos(), "no element access with the caller's index found in GetByIndex")
+	}
+}
+
+// c14DecodeForms: E13 (a flag carried as an integer has two encodings only) and E14 (a decoder does not rely on a
+// pre-built receiver).
+func c14DecodeForms(c *Ctx, w *World) {
+	var decoders []*ssa.Function
+	for _, rel := range []string{statePkg, "staking", "consensus/ucon", "core/types"} {
+		for _, fn := range w.FuncsIn(rel) {
+			if fn.Blocks != nil && fn.Name() == "DecodeRLP" && fn.Signature.Recv() != nil && !strings.HasSuffix(w.fileOf(fn.Pos()), "_test.go") {
+				decoders = append(decoders, fn)
+			}
+		}
+	}
+	sort.Slice(decoders, func(i, j int) bool { return fname(decoders[i]) < fname(decoders[j]) })
+
+	c.Rule("C14.E13", "GATE", "accepted bytes re-encode to exactly those bytes: where a DecodeRLP method turns an integer of the decoded form into a boolean by comparing it with 1 (the encoder writes 0 or 1), the same integer is also range-checked — some ordering comparison of it with a constant guards an error return — so that the other 254 values are rejected instead of all decoding to false and re-encoding as 0")
+	c.Min(1)
+	nFlags := 0
+	for _, fn := range decoders {
+		k := 0
+		for _, in := range allInstrs(fn) {
+			bo, ok := in.(*ssa.BinOp)
+			if !ok || bo.Op != token.EQL {
+				continue
+			}
+			var carrier ssa.Value
+			if n, isK := constInt(bo.Y); isK && n == 1 {
+				carrier = bo.X
+			} else if n, isK := constInt(bo.X); isK && n == 1 {
+				carrier = bo.Y
+			}
+			if carrier == nil {
+				continue
+			}
+			f, _ := loadedField(stripConvNoBind(carrier))
+			if f == nil {
+				continue
+			}
+			if b, isB := f.Type().Underlying().(*types.Basic); !isB || b.Info()&types.IsInteger == 0 {
+				continue
+			}
+			// the comparison's result becomes a boolean field of the receiver
+			becomesFlag := false
+			for _, r := range *bo.Referrers() {
+				if st, isSt := r.(*ssa.Store); isSt {
+					if fa, isFA := st.Addr.(*ssa.FieldAddr); isFA {
+						if tf := fieldOfAddr(fa); tf != nil && isBoolType(tf.Type()) {
+							becomesFlag = true
+						}
+					}
+				}
+				// if carrier == 1 { recv.flag = true }
+				if iff, isIf := r.(*ssa.If); isIf {
+					for _, sc := range iff.Block().Succs {
+						for _, sin := range sc.Instrs {
+							if st, isSt := sin.(*ssa.Store); isSt {
+								if fa, isFA := st.Addr.(*ssa.FieldAddr); isFA {
+									if tf := fieldOfAddr(fa); tf != nil && isBoolType(tf.Type()) {
+										if _, isK := st.Val.(*ssa.Const); isK {
+											becomesFlag = true
+										}
+									}
+								}
+							}
+						}
+					}
+				}
+			}
+			if !becomesFlag {
+				continue
+			}
+			nFlags++
+			c.sites++
+			c.sawFunc(fname(fn))
+			checked := false
+			for _, in2 := range allInstrs(fn) {
+				b2, ok := in2.(*ssa.BinOp)
+				if !ok || !(b2.Op == token.GTR || b2.Op == token.GEQ || b2.Op == token.LSS || b2.Op == token.LEQ) {
+					continue
+				}
+				for _, side := range []ssa.Value{b2.X, b2.Y} {
+					if f2, _ := loadedField(stripConvNoBind(side)); f2 == f {
+						checked = true
+					}
+				}
+			}
+			c.Check(fmt.Sprintf("%s#flag-%d-%s-has-two-encodings", fname(fn), k, f.Name()), bo.Pos(), checked, ifelse(checked, "the carrier is range-checked", "the integer "+f.Name()+" of the decoded form becomes a boolean by `== 1` and is not range-checked: every value 2…255 is accepted, decodes to false and re-encodes as 0 — 254 byte strings for one object"))
+			k++
+		}
+	}
+	if nFlags == 0 {
+		c.Undecided("DecodeRLP#integer-carried-flags", token.NoPos, "no DecodeRLP method that turns an integer into a boolean found (Validator.DecodeRLP is expected)")
+	}
+
+	c.Rule("C14.E14", "GATE", "decoding an encoding yields an equal value whoever allocated the receiver: a DecodeRLP method that writes into a map field of its receiver has made or nil-tested that map in the same method — the rlp package allocates zero-value receivers itself (pointers inside lists and structs), and an assignment to an entry of a nil map panics")
+	c.Min(2)
+	nMaps := 0
+	for _, fn := range decoders {
+		recv := fn.Params[0]
+		seenField := map[string]bool{}
+		for _, in := range allInstrs(fn) {
+			mu, ok := in.(*ssa.MapUpdate)
+			if !ok {
+				continue
+			}
+			f, base := loadedField(stripConvNoBind(mu.Map))
+			if f == nil || base == nil || stripConvNoBind(base) != ssa.Value(recv) || seenField[f.Name()] {
+				continue
+			}
+			seenField[f.Name()] = true
+			nMaps++
+			c.sites++
+			c.sawFunc(fname(fn))
+			prepared := false
+			for _, in2 := range allInstrs(fn) {
+				switch x := in2.(type) {
+				case *ssa.Store:
+					if fa, isFA := x.Addr.(*ssa.FieldAddr); isFA && fieldOfAddr(fa) == f {
+						if _, isMk := stripConvNoBind(x.Val).(*ssa.MakeMap); isMk {
+							prepared = true
+						}
+					}
+				case *ssa.BinOp:
+					if x.Op == token.EQL || x.Op == token.NEQ {
+						for _, pair := range [][2]ssa.Value{{x.X, x.Y}, {x.Y, x.X}} {
+							if f2, _ := loadedField(stripConvNoBind(pair[0])); f2 == f && isNilConst(pair[1]) {
+								prepared = true
+							}
+						}
+					}
+				}
+			}
+			c.Check(fmt.Sprintf("%s#map-%s-made-before-written", fname(fn), f.Name()), mu.Pos(), prepared, ifelse(prepared, "the map is made (or nil-tested) in the decoder", "the decoder assigns into the receiver's map "+f.Name()+" without making it: decoding into a zero value (as the rlp package allocates them) panics with \"assignment to entry in nil map\""))
+		}
+	}
+	if nMaps == 0 {
+		c.Undecided("DecodeRLP#receiver-maps", token.NoPos, "no DecodeRLP method writing into a map of its receiver found (ValidatorsStat.DecodeRLP is expected)")
 	}
 }
